@@ -89,10 +89,12 @@ Demands(c) ==
 DemandedDirs(c) == { d[1] : d \in Demands(c) }
 (* the statement gives one mode per path; when paths of both kinds share a *)
 (* directory it does not say which mode the single mount gets: "*" = open  *)
-ModeOf(c, d) == LET ms == { x[2] : x \in { y \in Demands(c) : y[1] = d } }
-                IN  IF Cardinality(ms) = 1 THEN CHOOSE m \in ms : TRUE ELSE "*"
-Mounts(c) == { [h |-> d, m |-> ModeOf(c, d)] : d \in DemandedDirs(c) }
-             \cup { [h |-> CacheRoot, m |-> "rw"] }
+Mounts(c) ==
+  LET dm      == Demands(c)
+      mode(d) == LET ms == { x[2] : x \in { y \in dm : y[1] = d } }
+                 IN  IF Cardinality(ms) = 1 THEN CHOOSE m \in ms : TRUE ELSE "*"
+  IN  { [h |-> d, m |-> mode(d)] : d \in { x[1] : x \in dm } }
+      \cup { [h |-> CacheRoot, m |-> "rw"] }
 OpenDirs(c) == { mt.h : mt \in { x \in Mounts(c) : x.m = "*" } }
 
 BindText(c, mt) == GlueAll(<< PathText(mt.h), W(":"), PathText(Under(c.root, mt.h)),
@@ -103,7 +105,9 @@ WorkDir(c)      == PathText(Under(c.root, JobDir))
 RuntimeWords(rt) == IF rt = "docker" THEN << "docker", "run" >> ELSE << "singularity", "exec" >>
 BindFlags(rt)    == IF rt = "docker" THEN { "-v", "--volume" }  ELSE { "-B", "--bind" }
 WorkDirFlags(rt) == IF rt = "docker" THEN { "-w", "--workdir" } ELSE { "--pwd" }
-ImageToken(c)    == c.image \o ":" \o c.tag
+(* The statement does not say how image name and tag are written for the  *)
+(* runtime; the image argument is only required to name the image (the    *)
+(* harness accepts NAME or NAME:TAG and records which one it saw).         *)
 
 (* ---------------------------- invocations ------------------------------ *)
 (* Tok turns a text into command-line tokens.  The intended design makes   *)
@@ -112,11 +116,12 @@ ImageToken(c)    == c.image \o ":" \o c.tag
 (* the option value), binds as a set: the statement fixes no order.        *)
 OneToken(t) == << Render(t) >>
 Prefix(c, Tok(_)) ==
+  LET mts == Mounts(c) IN
   [ rt    |-> RuntimeWords(c.rt),
     xargs |-> c.xargs,
-    binds |-> { << "B" >> \o Tok(BindText(c, mt)) : mt \in Mounts(c) },
+    binds |-> { << "B" >> \o Tok(BindText(c, mt)) : mt \in mts },
     wd    |-> << << "W", Render(WorkDir(c)) >> >>,
-    image |-> ImageToken(c) ]
+    image |-> c.image ]
 Tokens(texts, Tok(_)) == FlattenSeq([i \in 1..Len(texts) |-> Tok(texts[i])])
 
 IdealPrefix(c)        == Prefix(c, OneToken)
@@ -134,8 +139,8 @@ SplitAtBlanks(t) == t
 BlankSplitPrefix(c)        == Prefix(c, SplitAtBlanks)
 BlankSplitContainerArgv(c) == Tokens(ContainerArgv(c), SplitAtBlanks)
 BlankSplitNativeArgv(c)    == Tokens(NativeArgv(c), SplitAtBlanks)
-BlankInBinds(c) == \E mt \in Mounts(c) : HasBlank(BindText(c, mt))
-BlankInArgv(c)  == \E i \in 1..Len(NativeArgv(c)) : HasBlank(NativeArgv(c)[i])
+BlankInBinds(c) == LET mts == Mounts(c) IN \E mt \in mts : HasBlank(BindText(c, mt))
+BlankInArgv(c)  == LET nat == NativeArgv(c) IN \E i \in 1..Len(nat) : HasBlank(nat[i])
 
 (* ListCrash: any non-empty list-of-files input makes the environment fail *)
 (* before the runtime is invoked.                                          *)
@@ -167,7 +172,9 @@ SpecTheorems(c) ==
         (c.fields[k].kind = "out" \/ (c.fields[k].kind \in {"file", "list"} /\ Staged(c.fields[k])))
         => \A i \in 1..Len(nps[k]) : Parent(nps[k][i]) = JobDir
   \* the as-built references differ from the design exactly where a blank occurs
-  /\ (BlankSplitPrefix(c) = IdealPrefix(c)) <=> ~BlankInBinds(c)
-  /\ (BlankSplitContainerArgv(c) = IdealContainerArgv(c)) <=> ~BlankInArgv(c)
-  /\ (BlankSplitNativeArgv(c) = IdealNativeArgv(c)) <=> ~BlankInArgv(c)
+  /\ LET bb == \E mt \in mts : HasBlank(BindText(c, mt))
+         ba == \E i \in 1..Len(nat) : HasBlank(nat[i])
+     IN  /\ (BlankSplitPrefix(c) = IdealPrefix(c)) <=> ~bb
+         /\ (Tokens(con, SplitAtBlanks) = Tokens(con, OneToken)) <=> ~ba
+         /\ (Tokens(nat, SplitAtBlanks) = Tokens(nat, OneToken)) <=> ~ba
 =============================================================================
